@@ -4,7 +4,11 @@ import (
 	"fmt"
 	"runtime"
 	"runtime/debug"
+	"time"
 )
+
+// stallAfter is how long (wall clock) the scheduler waits for the running task to yield or finish.
+const stallAfter = 20 * time.Second
 
 // Sched is the cooperative scheduler: tasks are real goroutines, but exactly one
 // holds the baton at any time and the choice of who runs next is the tape's (or a
@@ -14,6 +18,8 @@ type Sched struct {
 	back  chan *Task
 	cur   *Task
 	Steps int
+	// Stalled: see Run.
+	Stalled bool
 	// Foreign counts yield points reached by goroutines that are not tasks of this scheduler.
 	Foreign int
 	// Pick decides who runs after a yield / finish.  runnable holds task ids; cur is the
@@ -37,6 +43,9 @@ type Task struct {
 	Panicked string
 	gid      uint64
 }
+
+// GoID returns the current goroutine's id (exported for seams that must know whether they run on the caller's goroutine).
+func GoID() uint64 { return goid() }
 
 // goid returns the current goroutine's id (parsed from the stack header; used only at scheduling points).
 func goid() uint64 {
@@ -134,7 +143,18 @@ func (s *Sched) Run() {
 		t := s.tasks[next]
 		s.cur = t
 		t.resume <- struct{}{}
-		y := <-s.back
+		var y *Task
+		select {
+		case y = <-s.back:
+		case <-time.After(stallAfter):
+			// the task neither yielded nor finished: it is blocked on something that is not a yield point (a
+			// lock, a channel, a wait group of the code under test) which only a PARKED task could release.  A
+			// cooperative scheduler cannot resolve that; the run is given up (counted, never a verdict) and
+			// the goroutines are left behind.
+			s.Stalled = true
+			s.cur = nil
+			return
+		}
 		s.cur = nil
 		site = y.site
 		if y.done {
